@@ -44,6 +44,100 @@ DIRECTED = [
 ]
 
 
+def _children(pid):
+    out = []
+    for p in os.listdir("/proc"):
+        if p.isdigit():
+            try:
+                with open("/proc/%s/stat" % p) as f:
+                    st = f.read()
+                rp = st.rindex(")")
+                fl = st[rp + 2:].split()
+                if int(fl[1]) == pid:
+                    out.append({"pid": int(p), "comm": st[st.index("(") + 1:rp], "state": fl[0], "pgrp": int(fl[2]), "tpgid": int(fl[5])})
+            except (OSError, ValueError):
+                pass
+    return out
+
+
+def tty_reader_one(args):
+    """a foreground job whose program reads the terminal at once, under a widened fork window: it must own the terminal from
+    the moment its program runs (it is never stopped by SIGTTIN), gets the typed input, and the prompt returns with status 0"""
+    delay, line = args
+    import time
+    import ptydrv
+    try:
+        s = ptydrv.LineSession(env={"CICADA_VERIF_DELAY": delay} if delay else None)
+    except ptydrv.Unsettled as e:
+        return {"unsettled": str(e)}
+    try:
+        os.write(s.fd, (line + "\r").encode())
+        seen = []
+        reader = None
+        t0 = time.time()
+        while time.time() - t0 < 6.0:
+            s.read_some(0.05)
+            ch = [c for c in _children(s.pid) if c["comm"] == "vio"]
+            if ch:
+                seen.append((ch[0]["state"], ch[0]["pgrp"], ch[0]["tpgid"]))
+                if ch[0]["state"] == "T":
+                    reader = ch[0]
+                    break
+                if ch[0]["state"] == "S" and ch[0]["tpgid"] == ch[0]["pgrp"] and len(seen) > 6:
+                    reader = ch[0]
+                    break
+        if reader is None:
+            return {"unsettled": "the reader never appeared (%s)" % seen[-3:]}
+        stopped = reader["state"] == "T"
+        os.write(s.fd, b"in1\r")
+        s.read_some(0.3)
+        os.write(s.fd, b"\x04")
+        ok, _ = s.settle(8.0)
+        ok2, _ = s.send("vpa __st $?\r", timeout=8)
+        st = []
+        t1 = time.time()
+        while time.time() - t1 < 8.0:
+            # (the probe's own child is subject to the widened window too: wait for its record, then for the prompt)
+            recs = s.log()
+            st = [r["argv"][1] for r in recs if r.get("h") == "pa" and r.get("argv") and r["argv"][0] == "__st" and len(r["argv"]) > 1]
+            if st and s.at_prompt():
+                break
+            s.read_some(0.1)
+        s.settle(4.0)
+        io = [r.get("stdin") for r in recs if r.get("h") == "io"]
+        sh = [c for c in _children(os.getpid()) if c["pid"] == s.pid]
+        return {"delay": delay, "line": line, "stopped": stopped, "reader": reader, "status": st[0] if st else None, "stdin": io,
+                "shell_owns_tty_at_prompt": bool(sh) and sh[0]["tpgid"] == sh[0]["pgrp"]}
+    finally:
+        s.close()
+
+
+def tty_readers(rep, tier):
+    profiles = ["", "parent_after_fork0=150", "child0_pre_setpgid=150", "parent_after_fork0=60,child0_pre_setpgid=20"]
+    lines = ["vio T r", "vio T r | vio U r"]
+    plans = [(d, ln) for d in profiles for ln in lines] * (1 if tier == "quick" else 4)
+    with ProcessPoolExecutor(max_workers=4) as ex:
+        outs = list(ex.map(tty_reader_one, plans))
+    for (d, ln), o in zip(plans, outs):
+        if "unsettled" in o:
+            log("[C07] tty reader session not judged (%s): %s" % (d, o["unsettled"]))
+            continue
+        rep.cov["evaluations"] += 1
+        want_in = ["in1\n"] if "|" not in ln else None
+        bad = None
+        if o["stopped"]:
+            bad = "the foreground job was stopped when it read the terminal (state T, group %s, terminal's group %s)" % (o["reader"]["pgrp"], o["reader"]["tpgid"])
+        elif o["status"] != "0":
+            bad = "status after the job is %s (expected 0)" % o["status"]
+        elif want_in is not None and o["stdin"] != want_in:
+            bad = "the job read %s from the terminal, typed was %s" % (o["stdin"], want_in)
+        elif not o["shell_owns_tty_at_prompt"]:
+            bad = "the terminal is not the shell's at the prompt afterwards"
+        if bad:
+            rep.violation("c07/tty-reader", "`%s` typed at the prompt with schedule %r: %s" % (ln, d or "default", bad), {"tty_reader": o},
+                          {"ev": "tty-reader", "delay": d})
+
+
 def run_session(args):
     """runs in a worker process: one random (or directed) session; returns (records, error or None, plan)"""
     seed, nact = args
@@ -163,6 +257,11 @@ def runner(rep, tier, seed, replay):
     rep.add_tlc(rc)
     if not rc.violation:
         raise ToolError("negative control failed: with only the children calling setpgid the Launch model satisfies C07")
+    rt = run_tlc("Launch", "Launch_ttyparent", coverage=False)
+    rep.add_tlc(rt)
+    if "RunsOwningTerminal" not in (rt.violation or ""):
+        raise ToolError("negative control failed: with only the shell calling tcsetpgrp the Launch model lets no program run without the terminal")
+    tty_readers(rep, tier)
     nsess = 16 if tier == "quick" else 150
     rnd = random.Random(seed)
     plans = [(rnd.randrange(1 << 30), rnd.randint(5, 25)) for _ in range(nsess)]
